@@ -1,0 +1,20 @@
+//go:build verif
+
+package cache
+
+import "fmt"
+
+// VerifSharedCaches lists the shared caches currently held by the manager:
+// name -> identity token of the cache object (stable while the same object
+// stays in the manager) and its scrapped flag. Only compiled with the verif
+// tag; used by the verification harness to observe that a failed write
+// transaction dropped the caches it wrote and left the others alone.
+func (m *Manager) VerifSharedCaches() map[string]string {
+	m.mu.Lock()
+	defer m.mu.Unlock()
+	out := make(map[string]string, len(m.sharedCaches))
+	for name, s := range m.sharedCaches {
+		out[name] = fmt.Sprintf("%p scrapped=%v", s, s.scrapped)
+	}
+	return out
+}
